@@ -1,6 +1,6 @@
 (* C11: the hold-out splits partition their input; per-plate counts under the numpy contract. *)
 From Coq Require Import ZArith List Bool Arith Lia Permutation.
-From Batchie Require Import Lib.Sexp Model.Encode Model.Screen Model.Retro Model.Holdout
+From Batchie Require Import Lib.Sexp Model.Encode Model.Screen Model.Retro Model.RetroHoldout
   Proofs.C11Lib Proofs.C11Gen Proofs.C11Select.
 Import ListNotations.
 Open Scope nat_scope.
